@@ -122,8 +122,9 @@ fn read_field_type(chars: &mut Peekable<Chars>) -> Result<Type> {
 					char = chars.next().ok_or_else(|| anyhow!("unexpected abrupt ending of descriptor"))?;
 				}
 
-				// SAFETY: Between `L` and `;` in an descriptor is always a valid object class name.
-				let class_name = unsafe { ObjClassName::from_inner_unchecked(s) };
+				// Between `L` and `;` in a descriptor there must be a valid object class name.
+				let class_name = ObjClassName::try_from(s)
+					.context("invalid class name in descriptor")?;
 				Type::Object(class_name)
 			},
 			x => {
@@ -153,9 +154,10 @@ fn read_field_type(chars: &mut Peekable<Chars>) -> Result<Type> {
 					char = chars.next().ok_or_else(|| anyhow!("unexpected abrupt ending of descriptor"))?;
 				}
 
-				// SAFETY: Between `L` and `;` in an descriptor is always a valid class name.
-				let class_name = unsafe { ClassName::from_inner_unchecked(s) };
-				Type::Array(array_dimension, ArrayType::Object(class_name))
+				// Between `L` and `;` in a descriptor there must be a valid object class name.
+				let class_name = ObjClassName::try_from(s)
+					.context("invalid class name in descriptor")?;
+				Type::Array(array_dimension, ArrayType::Object(ClassName::from(class_name)))
 			},
 			x => {
 				bail!("unexpected char {x:?} in descriptor");
